@@ -17,6 +17,7 @@ RULE = (
     "comprehensions, dict/set displays, f-string, walrus, starred, method call, is): each engine must raise or return "
     "the Python value. Non-trivial = defined case whose source has >=4 AST nodes of >=2 kinds; distinct by "
     "(source, record)."
+    " Also: calls on literals that are equal in Python but of different types, membership in literal lists of 8-100 items, and every bare name that is a proper prefix or near miss of a whitelisted root name (must be rejected)."
 )
 ASSUMPTIONS = [
     "'arithmetic and bit operators' is read as the operators in the engine's own table at the pinned revision: "
